@@ -65,6 +65,9 @@ def getModuleName (treatDot : Bool) (name : List Char) (file : Option (List Name
 
 /-! ### relative / exact_import -/
 
+/-- every component is a nonempty string (dotted names never have empty components) -/
+def namesNonempty (l : MPath) : Bool := l.all (fun x => !x.isEmpty)
+
 /-- the loop `for x, y in zip(cur, ref): if x != y: break; i += 1` -/
 def commonLen : MPath → MPath → Nat
   | x :: xs, y :: ys => if x = y then commonLen xs ys + 1 else 0
@@ -91,7 +94,7 @@ def relative (cur refPath : MPath) (name : Name) : Option RelImport :=
     let dots := if nDots = 0 then 1 else nDots        -- if not left: left = "."
     -- if not right: right = name
     -- elif "." in right: extra, right = right.rsplit(".", 1); left += extra
-    if r = [] then some ⟨dots, [], name, false⟩
+    if joinDot r = [] then some ⟨dots, [], name, false⟩
     else some ⟨dots, r.dropLast, r.getLast?.getD [], true⟩
 
 /-- the two strings `relative` returns -/
